@@ -224,8 +224,37 @@ def nack_frag_counts(facts, rep):
     return n
 
 
+def reassembly_order(facts, rep):
+    """R05e: reassembly appends fragment payloads in fragment-number order, not in arrival order."""
+    from rules.common import closure_bodies_in
+    b = facts.fn("RtpsWriterProxy", "reconstruct_data_from_frag")
+    fc = FnCtx(b)
+    n = 0
+    sorted_first = False
+    for bb, t in fc.calls("sort_by_key", "sort_by", "sort_unstable_by_key", "sort_unstable_by"):
+        if any(cb.calls_any("DataFragSubmessage::fragment_starting_num") for cb in closure_bodies_in(facts, fc, fc.eb.call(t, bb, 0))):
+            sorted_first = True
+    for bb, t in fc.calls("Vec::extend_from_slice", "Vec::extend", "Vec::append"):
+        a = fc.arg(t, 1)
+        if not E.mentions_call(a, "DataFragSubmessage::serialized_payload"):
+            continue
+        n += 1
+        keyed = any(cb.calls_any("DataFragSubmessage::fragment_starting_num") for cb in closure_bodies_in(facts, fc, a))
+        ranged = False
+        for b2, t2 in fc.calls("Iterator::next"):
+            it = E.strip_casts(fc.arg(t2, 0))
+            if (it[0] == "adt" and it[1].endswith("ops::Range")) or E.is_call(it, "RangeInclusive::new"):
+                ranged = True
+        rep.add("R05e", b.sname, "fragment payloads are appended in fragment-number order", sorted_first or (keyed and ranged),
+                "payload appended from %s: fragments are taken in buffer (arrival) order, so reordered DATA_FRAGs permute the sample's bytes" % fc.show(a)[:120],
+                b.loc(t.line))
+    return n
+
+
 def run(ctx, rep):
     fx = ctx.facts
+    n5 = reassembly_order(fx, rep)
+    rep.floor("R05e", n5, 1, "payload appends in reconstruct_data_from_frag")
     want, pidx, b = callee_convention(fx)
     rep.add("R05a", b.sname, "as_data_frag_submessage derives fragment_starting_num from its index parameter", want in ("B0", "B1"),
             "cannot read the callee's convention (fragment_starting_num is not param / param+1)", b.loc())
